@@ -57,6 +57,8 @@ def run(prop, tier, seed, sections, fn_groups, bounds, explanation, rule, outsid
     for si, (name, pairs, exhaustive) in enumerate(sections):
         mine = [r for r in res if r.get("section") == si]
         rep.add_results(name, mine, len(pairs) - len(mine), exhaustive=exhaustive)
+    if prop in SR.COHERENCE_WITNESSES:
+        rep.add_results("F-COHERENCE witness (outside the coherent region; concrete replay only)", [SR.coherence_witness_result(prop)], 0, exhaustive=None)
     fns = encoded_functions()
     rep.functions = R.source_digest(*[f for g in fn_groups for f in fns[g]])
     rep.bounds = dict(bounds, per_input_path_cap=max_paths)
